@@ -75,6 +75,10 @@ func apuMain(c *Ctx) {
 		}
 		for _, s := range scs {
 			r := s.Reset.([]any)
+			if _, isStr := r[0].(string); !isStr {
+				apuRerunStream(c, w, s) // sample-stream scenarios start with the attached flag
+				continue
+			}
 			fam := trace.Str(r[0])
 			switch fam {
 			case "regs", "single":
